@@ -1,7 +1,7 @@
 """C02 — each accepted message reaches exactly the attached readers, once, unaltered."""
 from props import topic_common as tc
 
-KINDS = ["NewGrp", "Sub", "Leave", "SetSelf", "SetOther", "DelSub", "Pub", "Unload"]
+KINDS = ["NewGrp", "Sub", "Leave", "SetSelf", "SetOther", "DelSub", "Pub", "Unload", "Conn", "Reload"]
 
 
 def run(ctx):
